@@ -36,3 +36,20 @@ Theorem C05_SmmaStrategy_refuted :
 Proof. exists 60%nat. intros T N. vm_compute. split; [|reflexivity]. repeat constructor. Qed.
 Print Assumptions C05_AlligatorStrategy_refuted.
 Print Assumptions C05_SmmaStrategy_refuted.
+
+(* C14: in the Alligator and SMMA strategy reports the indicator and annotation columns carry one value more than there are date rows. *)
+Definition col_elen_ {I T} (c : column I T) (ns : list nat) : nat := match c with ColNum _ e => elen e ns | ColAnn _ e => elen e ns end.
+
+Theorem C14_AlligatorStrategy_refuted :
+  exists (n : nat), forall (T : Type) (N : Num T),
+    let r := strategy_trend_AlligatorStrategy_Report (I:=asset_Snapshot (T:=T)) strategy_trend_NewAlligatorStrategy (EIn 0) in
+    exists c, In c (rp_cols r) /\ col_elen_ c [n] = S (elen (rp_dates r) [n]).
+Proof. exists 40%nat. intros T N. eexists. split; [right; left; reflexivity|]. vm_compute. reflexivity. Qed.
+
+Theorem C14_SmmaStrategy_refuted :
+  exists (n : nat), forall (T : Type) (N : Num T),
+    let r := strategy_trend_SmmaStrategy_Report (I:=asset_Snapshot (T:=T)) strategy_trend_NewSmmaStrategy (EIn 0) in
+    exists c, In c (rp_cols r) /\ col_elen_ c [n] = S (elen (rp_dates r) [n]).
+Proof. exists 80%nat. intros T N. eexists. split; [right; left; reflexivity|]. vm_compute. reflexivity. Qed.
+Print Assumptions C14_AlligatorStrategy_refuted.
+Print Assumptions C14_SmmaStrategy_refuted.
